@@ -130,6 +130,7 @@ Section RP.
   Inductive event :=
   | EvAuth (cookies : list cookie_cmd) (base : string) (ps : params)   (* 302 to base?ps *)
   | EvCb (h : handler) (reqs : list tokreq) (cookies : list cookie_cmd)
+  | EvProbe (base : string) (ps : params)                              (* rp.AuthURL(probe_state, rp) asked after another API call *)
   | EvNone                                                             (* no library call *)
   | EvOther.                                                           (* login did not redirect *)
 
@@ -175,7 +176,18 @@ Section RP.
                                                      (securecookie: value too long; oracle = the real Encode) *)
   | OCallback (q : params) (tok_ok apply : bool)  (* browser calls the callback; apply = it processes the response's cookies *)
   | OSet (n : string) (c : cval)                  (* something else writes a cookie into the jar *)
-  | ODel (n : string).                            (* ... or removes one (also: a late response's deletion) *)
+  | ODel (n : string)                             (* ... or removes one (also: a late response's deletion) *)
+  | OApi (label : string).                        (* the application uses the same RP value for something else
+                                                     (rp.ClientCredentials, RefreshTokens, Userinfo, EndSession,
+                                                     RevokeToken, DeviceAuthorization, CodeExchange,
+                                                     GenerateAndStoreCodeChallenge, AuthURL with other options,
+                                                     a JWT profile assertion) and then asks rp.AuthURL(probe_state, rp) *)
+
+  (* rp.AuthURL(state, rp) without options: the configured values, nothing else *)
+  Definition probe_state : string := "probe-state".
+  Definition plain_cfg (cfg : config) : config :=
+    Cfg (c_key cfg) (c_pkce cfg) (c_jwt cfg) (c_client cfg) (c_redirect cfg) (c_scopes cfg) (c_auth cfg) [].
+  Definition probe_params (cfg : config) : params := auth_params (plain_cfg cfg) probe_state None.
 
   Definition respond (cfg : config) (j : jar) (o : op) : event :=
     match o with
@@ -183,6 +195,7 @@ Section RP.
     | OStartFail _ => EvOther          (* unauthorized handler, no cookie, no redirect *)
     | OCallback q ok _ => callback cfg j q ok
     | OSet _ _ | ODel _ => EvNone
+    | OApi _ => EvProbe (c_auth cfg) (probe_params cfg)   (* whatever the call was: the RP is as configured *)
     end.
 
   Definition ev_cookies (ev : event) : list cookie_cmd :=
@@ -199,6 +212,7 @@ Section RP.
     | OCallback _ _ apply => if apply then jar_apply j (ev_cookies ev) else j
     | OSet n c => jar_set n c j
     | ODel n => jar_del n j
+    | OApi _ => j
     end.
 
   (* authorization redirects issued so far, most recent first: (cookies, url parameters) *)
